@@ -1,0 +1,192 @@
+"""Event recorder for trace validation (verification tooling; inactive by default).
+
+Active only when the environment variable PYFVTOOL_VERIF_TRACE names a file.  Public calls
+that change the object / cache / dirty-bit state are wrapped by the decorators below; each
+wrapped call appends one JSON line to the file *after* the call (also when it raises).  Logged
+data are scalars: small integer object ids (first-seen order), flag values, booleans - never
+arrays.  Calls made from inside another wrapped call are logged with depth > 0.
+
+With the variable unset ENABLED is False and every decorator returns the function unchanged.
+"""
+import functools
+import json
+import os
+
+_SINK = os.environ.get("PYFVTOOL_VERIF_TRACE")
+ENABLED = bool(_SINK)
+
+SIDES = ("left", "right", "bottom", "top", "back", "front")
+_ids = {}        # id(object) -> small integer
+_keep = []       # keeps registered objects alive so that id() values are never reused
+_roles = {}      # id(TrackedArray) -> [bc number, side, coefficient]  or  ["value", var number]
+_faces = {}      # id(coefficient array) -> the BoundaryFace that owns it
+_seq = [0]
+_depth = [0]
+_applies = [0]   # number of apply_BCs calls so far (lets a solver event tell whether the entry check fired)
+
+
+def num(obj):
+    k = id(obj)
+    if k not in _ids:
+        _ids[k] = len(_ids) + 1
+        _keep.append(obj)
+    return _ids[k]
+
+
+def register_bc(bc):
+    """make a BoundaryConditions object and its arrays known (deep copies are created without
+    running __init__, so objects are registered wherever they are first met)"""
+    first = id(bc) not in _ids
+    b = num(bc)
+    for s in SIDES:
+        face = getattr(bc, s)
+        _roles[id(face)] = [b, s, "face"]
+        _keep.append(face)
+        for coef in ("_a", "_b", "_c"):
+            arr = getattr(face, coef)
+            _roles[id(arr)] = [b, s, coef[1]]
+            _faces[id(arr)] = face
+            _keep.append(arr)
+    return b, first
+
+
+def dirty_sides(bc):
+    return [s for s in SIDES if getattr(bc, s).modified]
+
+
+def var_state(v):
+    b, first = register_bc(v.BCs)
+    _roles[id(v._value)] = ["value", num(v)]
+    _keep.append(v._value)
+    return {"var": num(v), "bc": b, "bc_first_seen": first, "precalc": bool(v.BCsTerm_precalc),
+            "has_cache": hasattr(v, "_BCsTerm"), "val_dirty": bool(v._value.modified),
+            "dirty": dirty_sides(v.BCs)}
+
+
+def base_of(arr):
+    base = arr
+    while getattr(base, "base", None) is not None and type(base.base) is type(arr):
+        base = base.base
+    return base
+
+
+def emit(event, fields):
+    _seq[0] += 1
+    rec = {"seq": _seq[0], "depth": _depth[0], "event": event}
+    rec.update(fields)
+    with open(_SINK, "a") as fh:
+        fh.write(json.dumps(rec) + "\n")
+
+
+def traced(event, describe):
+    """decorator: log `event` with the fields describe(result, error, *args, **kwargs) after the call"""
+    def deco(fn):
+        if not ENABLED:
+            return fn
+
+        @functools.wraps(fn)
+        def wrapper(*args, **kwargs):
+            a0 = _applies[0]
+            _depth[0] += 1
+            res, err = None, None
+            try:
+                res = fn(*args, **kwargs)
+                return res
+            except BaseException as ex:
+                err = type(ex).__name__
+                raise
+            finally:
+                _depth[0] -= 1
+                try:
+                    fields = describe(res, err, *args, **kwargs)
+                    fields["error"] = err
+                    fields["applies"] = _applies[0] - a0
+                    emit(event, fields)
+                except Exception as ex2:       # the recorder must never break the library
+                    emit(event, {"recorder_error": repr(ex2), "error": err})
+        return wrapper
+    return deco
+
+
+# ---- field extractors ---------------------------------------------------------------------
+def d_new_bc(res, err, self, *a, **k):
+    b, _ = register_bc(self)
+    return {"bc": b, "dirty": dirty_sides(self)}
+
+
+def d_new_var(res, err, self, mesh, value, *arg, **k):
+    if err:
+        return {}
+    f = var_state(self)
+    f["bc_given"] = len(arg) == 1
+    try:
+        f["ghost_given"] = bool(hasattr(value, "shape") and value.size != 1
+                                and tuple(value.shape) == tuple(int(n) + 2 for n in mesh.dims))
+    except Exception:
+        f["ghost_given"] = False
+    return f
+
+
+def d_apply(res, err, self):
+    _applies[0] += 1
+    return var_state(self)
+
+
+def d_update(res, err, self, other):
+    f = var_state(self)
+    f["src"] = num(other)
+    return f
+
+
+def d_copy(res, err, self):
+    f = {"src": num(self)}
+    if res is not None:
+        f.update(var_state(res))
+    return f
+
+
+def d_setitem(res, err, self, key, value):
+    base = base_of(self)
+    whole = bool(self is base and isinstance(key, slice) and key == slice(None))
+    f = {"role": _roles.get(id(base)), "whole": whole, "flag": bool(getattr(base, "_modified", False))}
+    face = _faces.get(id(base))
+    if face is not None:
+        f["side_flag"] = bool(face.modified)
+    return f
+
+
+def d_setflag(res, err, self, value):
+    base = base_of(self)
+    f = {"role": _roles.get(id(base)), "value": bool(value), "flag": bool(getattr(base, "_modified", False))}
+    face = _faces.get(id(base))
+    if face is not None:
+        f["side_flag"] = bool(face.modified)
+    return f
+
+
+def d_face_flag(res, err, self, value):
+    return {"role": _roles.get(id(self)), "value": bool(value), "flag": bool(self.modified)}
+
+
+def d_bc_flag(res, err, self, value):
+    b, _ = register_bc(self)
+    return {"bc": b, "value": bool(value), "dirty": dirty_sides(self)}
+
+
+def d_periodic(res, err, self, value):
+    return {"role": _roles.get(id(self)), "value": bool(value), "flag": bool(self.modified)}
+
+
+def d_solve(res, err, phi, *a, **k):
+    return var_state(phi)
+
+
+def d_explicit(res, err, phi_old, *a, **k):
+    f = {"src": var_state(phi_old)}
+    if res is not None:
+        f["res"] = var_state(res)
+    return f
+
+
+def d_matrix(res, err, *a, **k):
+    return var_state(res) if res is not None else {}
